@@ -384,7 +384,8 @@ func init() {
 						if k := strings.Index(inner, ".."); k >= 0 {
 							parts = []string{inner[:k], "..", inner[k+2:]}
 						}
-						for _, ws := range []string{" ", "\t", "\n", "\r\n", "\n\n "} {
+						// ... and a line that ends inside the brackets is a line: a comment may be appended to it
+						for _, ws := range []string{" ", "\t", "\n", "\r\n", "\n\n ", " // c\n", "//]\n", "\t// 9..\r\n", "// [1\n// 2]\n"} {
 							for gap := 0; gap <= len(parts); gap++ {
 								v := "["
 								for pi, pt := range parts {
